@@ -39,8 +39,16 @@ fn block_modes(ctx: &Ctx, t: &mut Tape<'_>, r: &mut Report) -> CheckResult {
     let n = if unit == 1 { gen_msg_len(t, suite.info.bs, 4) } else { gen_nblocks(t, par, 30) };
     let data = tape::gen_bytes(t, n * unit);
     let pre = gen_prefill_kind(t);
-    let inplace = t.pick(&[CallKind::Blocks, CallKind::Block, CallKind::BlocksInoutInplace]);
-    let b2b = t.pick(&[CallKind::BlocksB2b, CallKind::BlockB2b, CallKind::BlocksInout, CallKind::BlockInout, CallKind::Backend, CallKind::Backend]);
+    // like with like: the same operation in its in-place and its two-buffer form (batching is C07's business)
+    let (inplace, b2b) = t.pick(&[
+        (CallKind::Blocks, CallKind::BlocksB2b),
+        (CallKind::Block, CallKind::BlockB2b),
+        (CallKind::BackendInplace, CallKind::Backend),
+        (CallKind::Blocks, CallKind::BlocksInout),
+        (CallKind::Block, CallKind::BlockInout),
+        (CallKind::BlocksInoutInplace, CallKind::BlocksInout),
+        (CallKind::BackendInplace, CallKind::Backend),
+    ]);
     let mut sb = [0u8; 6];
     for b in sb.iter_mut() {
         *b = t.byte();
@@ -168,7 +176,9 @@ fn cores(ctx: &Ctx, t: &mut Tape<'_>, r: &mut Report) -> CheckResult {
     let n = gen_nblocks(t, suite.info.par, 24);
     let data = tape::gen_bytes(t, n * bs);
     let pre = gen_prefill_kind(t);
-    let k2 = t.pick(&[CoreKind::ApplyBlocksInout, CoreKind::ApplyBlockInout, CoreKind::WriteBlocks, CoreKind::WriteBlock, CoreKind::Backend]);
+    // `apply_keystream_blocks` (in place) and `apply_keystream_blocks_inout` are the one operation the
+    // cores offer in both forms
+    let k2 = t.pick(&[CoreKind::ApplyBlocksInout]);
     let mut sb = [0u8; 6];
     for b in sb.iter_mut() {
         *b = t.byte();
